@@ -18,6 +18,9 @@ import (
 const VerifRoot = "/verif"
 
 // outRoot is where evidence/ and out/ are written: /verif, or $VERIF_OUT_ROOT during mutation testing.
+// OutRoot is exported for engines that write auxiliary files next to the evidence.
+func OutRoot() string { return outRoot() }
+
 func outRoot() string {
 	if d := os.Getenv("VERIF_OUT_ROOT"); d != "" {
 		return d
